@@ -25,8 +25,9 @@ type BaselineEntry struct {
 }
 
 type Baseline struct {
-	Note        string          `json:"note"`
-	Obligations []BaselineEntry `json:"obligations"`
+	Note        string              `json:"note"`
+	Obligations []BaselineEntry     `json:"obligations"`
+	Abstracted  map[string][]string `json:"abstracted,omitempty"` // per function: callees without contract that were havocked (not executed inline) on the pinned tree
 }
 
 type KnownFinding struct {
@@ -137,10 +138,22 @@ func cmdBaseline(args []string) int {
 		}
 		if *fpat != "" && !matchRe(*fpat, key) {
 			b.Obligations = append(b.Obligations, keep[key]...)
+			if prev != nil && prev.Abstracted != nil {
+				if b.Abstracted == nil {
+					b.Abstracted = map[string][]string{}
+				}
+				if a, ok := prev.Abstracted[key]; ok {
+					b.Abstracted[key] = a
+				}
+			}
 			continue
 		}
 		delete(keep, key)
 		rep := verifyFunction(p, c, cfg, nil)
+		if b.Abstracted == nil {
+			b.Abstracted = map[string][]string{}
+		}
+		b.Abstracted[key] = append([]string{}, rep.Abstracted...)
 		fmt.Printf("== %s (%.1fs)\n", key, rep.Wall)
 		for _, e := range rep.Errors {
 			fmt.Println("   ERROR:", e)
@@ -322,6 +335,41 @@ func cmdCheck(args []string) int {
 						assumptions["engine: obligation "+r.Name+" failed on the first run and discharged on the re-run (solver instability); counted as discharged"] = true
 						rep.Results[i] = r2
 					}
+				}
+			}
+		}
+		if base.Abstracted != nil {
+			if was, ok := base.Abstracted[key]; ok {
+				known := map[string]bool{}
+				for _, a := range was {
+					known[a] = true
+				}
+				var fresh []string
+				for _, a := range rep.Abstracted {
+					if !known[a] {
+						fresh = append(fresh, a)
+					}
+				}
+				if len(fresh) > 0 {
+					// the function now calls something with loops that has no contract (a helper introduced by a
+					// refactoring): its effect is havocked, so an obligation that no longer discharges says nothing about
+					// the property. Undecided, not a violation.
+					for i, r := range rep.Results {
+						if _, isKnown := knownByObl[r.Name]; isKnown {
+							continue
+						}
+						if r.Status != "proved" {
+							anchorLost = append(anchorLost, key+": "+r.Name+" not decided: new callee(s) without contract: "+strings.Join(fresh, ", "))
+							rep.Results[i] = nil
+						}
+					}
+					var kept []*OblResult
+					for _, r := range rep.Results {
+						if r != nil {
+							kept = append(kept, r)
+						}
+					}
+					rep.Results = kept
 				}
 			}
 		}
